@@ -73,6 +73,9 @@ def random_pipeline(rng, n_pumps=None, slurry=None, entrance_zero=None, dia_choi
     n_pipes = rng.randint(2, 8)
     n_pumps = rng.randint(0, 3) if n_pumps is None else n_pumps
     dias = rng.sample(list(dia_choices), rng.randint(1, min(3, len(dia_choices))))
+    if rng.random() < 0.25:
+        # nearly equal diameters are different diameters: a nominal size beside the same size converted from inches, new pipe beside worn pipe
+        dias.append(rng.choice(dias) + rng.choice([0.0004, -0.0004, 0.0008]))
     if slurry is None:
         p = E.slurry_params(rng)
         p['Dp'] = rng.choice(dias) if rng.random() < 0.8 else p['Dp']
